@@ -71,6 +71,9 @@ type Exec struct {
 	assertsSeen map[string]int
 	params map[string]int
 	nCtx int
+	fp *footprint
+	where string
+	lastConflict string
 	udp *udpState
 	blockedForever bool
 	watchdogLabel string
